@@ -126,7 +126,14 @@ def doc_column_part(chk, which):
     documentation row as its replay, and (2) the very probe datagrams are sent through the real pipe and compared with the
     model on every column, which carries the theorem's verdict over to the implementation."""
     fails = [t for t in model_run('C08T', ['v5doc' if which == 'v5' else 'sfdoc'])[0].split(' ') if t not in ('end', '')]
-    for n in fails:
+    unknown = [t for t in model_run('C08T', ['v5unknown' if which == 'v5' else 'sfunknown'])[0].split(' ') if t not in ('end', '')]
+    for n in unknown:
+        # a cell worded in a way the check does not know: the documentation theorem no longer checks, but nothing says
+        # the mapping is wrong
+        chk.record('doc-' + which, dict(concrete=False, input='docs/protocols.md row %s, %s cell' % (n, 'NetFlow v5' if which == 'v5' else 'sFlow'),
+                   what='the documentation cell is worded in a way Spec/DocCheck2.v does not know: theorem c0%s_doc_%s_column_implemented no longer checks'
+                        % (('8', 'v5') if which == 'v5' else ('9', 'sflow'))), {})
+    for n in [x for x in fails if x not in unknown]:
         chk.record('doc-' + which, dict(concrete=True, input='docs/protocols.md row %s, %s cell' % (n, 'NetFlow v5' if which == 'v5' else 'sFlow'),
                    impl='(the producer model, compared with the implementation on the same probes below)',
                    what='the documentation table says where this column comes from and the producer does not fill it from there'), {})
